@@ -123,7 +123,11 @@ def finish(r_impl, r_ref, obs_after, obs_before, model_obs):
     if r_impl[0] == 'rej':
         if obs_after != obs_before:
             _LAST['why'] = 'rejected-but-state-changed'
-        return obs_after == obs_before                      # rejected -> message unchanged
+            return False                                    # rejected -> message unchanged
+        if r_ref[0] == 'ok':
+            _LAST['why'] = 'rejected-what-the-model-accepts'
+            return False                                    # the reference model performs the operation: states differ
+        return True
     if r_ref[0] != 'ok':
         _LAST['why'] = 'accepted-what-the-model-forbids'
         return False                                        # accepted something the reference model forbids
